@@ -5,6 +5,7 @@ package exec
 import (
 	"context"
 	"fmt"
+	"strings"
 
 	"github.com/grailbio/bigslice"
 	"github.com/grailbio/bigslice/frame"
@@ -121,14 +122,20 @@ func zzE2EKeyed(gk, gv, keys, vals []int64, what string) {
 
 // Const -> Reshard -> Reduce: a keyed shuffle with map-side combining, sorting
 // and a reducing merge on the consumer side.
-func zzH_C01_e2e_reduce()      { zzE2EReduceHarness(2) }
-func zzH_C01_e2e_reduce_deep() { zzE2EReduceHarness(3) }
+func zzH_C01_e2e_reduce()       { zzE2EReduceHarness(2, false) }
+func zzH_C01_e2e_reduce_quick() { zzE2EReduceHarness(2, true) }
 
-func zzE2EReduceHarness(maxRows int) {
+func zzE2EReduceHarness(maxRows int, fixed bool) {
 	old := *defaultChunksize
-	*defaultChunksize = zz.AnyIntIn("chunk", 1, 2)
 	defer func() { *defaultChunksize = old }()
-	sess := zzE2ESession()
+	var sess *Session
+	if fixed {
+		*defaultChunksize = 2
+		sess = Start(Local, Parallelism(1))
+	} else {
+		*defaultChunksize = zz.AnyIntIn("chunk", 1, 2)
+		sess = zzE2ESession()
+	}
 	n := zz.AnyIntIn("rows", 0, maxRows)
 	nshard := zz.AnyIntIn("nshard", 1, 2)
 	nred := zz.AnyIntIn("nred", 1, 2)
@@ -230,4 +237,150 @@ func zzH_C08_workerCompile() {
 	for i, t := range wtasks {
 		zz.Assert((t.Deps == nil) == (res.tasks[i].Deps == nil), "a worker replays the driver's cache decisions")
 	}
+}
+
+func zzUFMap2(k, v int64) (int64, int64) { return k, zz.UFInt64("e2e.G", k, v) }
+
+var zzE2EUse = bigslice.Func(func(s bigslice.Slice) bigslice.Slice {
+	return bigslice.Map(s, zzUFMap2)
+})
+
+var zzE2EUseShuffled = bigslice.Func(func(s bigslice.Slice, nshard int) bigslice.Slice {
+	return bigslice.Map(bigslice.Reshard(s, nshard), zzUFMap2)
+})
+
+// zzE2ESameMultiset asserts that (gk, gv) is a permutation of (wk, wv) for up
+// to 3 rows (counting occurrences symbolically).
+func zzE2ESameMultiset(gk, gv, wk, wv []int64, what string) {
+	zz.Assert(len(gk) == len(wk), what+": the same number of rows")
+	if len(gk) != len(wk) {
+		return
+	}
+	for i := range wk {
+		cg, cw := 0, 0
+		for j := range wk {
+			cg += zz.IteInt(zz.And(gk[j] == wk[i], gv[j] == wv[i]), 1, 0)
+			cw += zz.IteInt(zz.And(wk[j] == wk[i], wv[j] == wv[i]), 1, 0)
+		}
+		zz.Assert(cg == cw, what+": every row occurs as often as the reference evaluation prescribes")
+	}
+}
+
+// zzH_C12_e2e_reuse: a Result is scanned, passed to a later Func (pipelined or
+// through a shuffle), possibly discarded in between, and scanned again: every
+// successful use observes the rows of the first evaluation.
+func zzH_C12_e2e_reuse() {
+	old := *defaultChunksize
+	*defaultChunksize = 2
+	defer func() { *defaultChunksize = old }()
+	ctx := context.Background()
+	sess := zzE2ESession()
+	nshard := zz.AnyIntIn("nshard", 1, 2)
+	keys, vals := zzE2ERows(zz.AnyIntIn("rows", 0, 2))
+	res, err := sess.Run(ctx, zzE2EMapFilter, nshard, keys, vals)
+	zz.Assert(err == nil, "a failure-free program runs to success")
+	if err != nil {
+		return
+	}
+	var wk, wv []int64
+	for i := range keys {
+		if zzUFKeep(zzUFMap(keys[i], vals[i])) {
+			k, v := zzUFMap(keys[i], vals[i])
+			wk, wv = append(wk, k), append(wv, v)
+		}
+	}
+	gk, gv, err := zzE2EScan(res)
+	zz.Assert(err == nil, "scanning a successful result does not fail")
+	zzE2ESameMultiset(gk, gv, wk, wv, "first scan")
+	discarded := zz.AnyBool("discardBeforeReuse")
+	if discarded {
+		res.Discard(ctx)
+		zz.Reach("result discarded before it is reused")
+		for _, t := range res.tasks {
+			zz.Assert(t.State() != TaskRunning, "Discard does not leave a task RUNNING")
+		}
+	}
+	var res2 *Result
+	if zz.AnyBool("reuseThroughShuffle") {
+		zz.Reach("reused through a shuffle")
+		res2, err = sess.Run(ctx, zzE2EUseShuffled, res, zz.AnyIntIn("nshard2", 1, 2))
+	} else {
+		res2, err = sess.Run(ctx, zzE2EUse, res)
+	}
+	zz.Assert(err == nil, "a later Func using the result runs to success (recomputing what was discarded)")
+	if err != nil {
+		return
+	}
+	var w2k, w2v []int64
+	for i := range wk {
+		k, v := zzUFMap2(wk[i], wv[i])
+		w2k, w2v = append(w2k, k), append(w2v, v)
+	}
+	g2k, g2v, err := zzE2EScan(res2)
+	zz.Assert(err == nil, "scanning the later result does not fail")
+	zzE2ESameMultiset(g2k, g2v, w2k, w2v, "later Func over the result")
+	// rescanning the first result: its rows (recomputed if they were discarded) or an error, never other rows
+	gk, gv, err = zzE2EScan(res)
+	if err == nil {
+		zz.Reach("rescanned")
+		zzE2ESameMultiset(gk, gv, wk, wv, "rescan")
+	}
+}
+
+func zzUFMaybePanic(k, v int64) (int64, int64) {
+	if zz.UFBool("e2e.panics", k, v) {
+		panic(zzUserMsg)
+	}
+	return k, v
+}
+
+var zzE2EPanicky = bigslice.Func(func(nshard int, keys, vals []int64) bigslice.Slice {
+	return bigslice.Map(bigslice.Const(nshard, keys, vals), zzUFMaybePanic)
+})
+
+// zzH_C06_e2e_panic: a user function that panics at some row makes the REAL
+// Session.Run return an error carrying the panic value -- no hang, no crash, no
+// partial result -- and the session stays usable: a later healthy run succeeds
+// with the right rows.
+func zzH_C06_e2e_panic() {
+	old := *defaultChunksize
+	*defaultChunksize = 2
+	defer func() { *defaultChunksize = old }()
+	ctx := context.Background()
+	sess := zzE2ESession()
+	nshard := zz.AnyIntIn("nshard", 1, 2)
+	keys, vals := zzE2ERows(zz.AnyIntIn("rows", 0, 2))
+	res, err := sess.Run(ctx, zzE2EPanicky, nshard, keys, vals)
+	panics := false
+	for i := range keys {
+		panics = zz.Or(panics, zz.UFBool("e2e.panics", keys[i], vals[i]))
+	}
+	if panics {
+		zz.Reach("a user function panicked")
+		zz.Assert(err != nil, "a panic in a user function makes Run return an error")
+		zz.Assert(err != nil && strings.Contains(err.Error(), zzUserMsg), "the error carries the panic value")
+	} else {
+		zz.Assert(err == nil, "a failure-free program runs to success")
+		if err == nil {
+			gk, gv, serr := zzE2EScan(res)
+			zz.Assert(serr == nil, "scanning a successful result does not fail")
+			zzE2ESameMultiset(gk, gv, keys, vals, "healthy run")
+		}
+	}
+	// the session remains usable
+	res2, err2 := sess.Run(ctx, zzE2EMapFilter, nshard, keys, vals)
+	zz.Assert(err2 == nil, "the session remains usable for later runs")
+	if err2 != nil {
+		return
+	}
+	var wk, wv []int64
+	for i := range keys {
+		if zzUFKeep(zzUFMap(keys[i], vals[i])) {
+			k, v := zzUFMap(keys[i], vals[i])
+			wk, wv = append(wk, k), append(wv, v)
+		}
+	}
+	gk, gv, serr := zzE2EScan(res2)
+	zz.Assert(serr == nil, "scanning a successful result does not fail")
+	zzE2ESameMultiset(gk, gv, wk, wv, "run after a failed run")
 }
